@@ -15,7 +15,7 @@ Definition needs_parens (child parent : nat) (is_left : bool) (pa : assoc3) : bo
   match Nat.compare child parent with
   | Gt => false
   | Lt => true
-  | Eq => negb (match pa with A_Both => true | A_Left => is_left | A_Right => negb is_left end)
+  | Eq => negb (match pa with A_Both => true | A_Left => is_left | A_Right => negb is_left | A_None => false end)
   end.
 
 (* ---- constructs: what one RQ node becomes ---- *)
@@ -51,7 +51,7 @@ Definition c_between : option construct :=
   | [(il0, r0, a0); (il1, r1, a1); (il2, r2, a2)] =>
       Some {| c_top := 0;
               c_sk := DBin SBetween 0 (hole 0 r0 il0 a0) 0 (DBin SBand 0 (hole 1 r1 il1 a1) 0 (hole 2 r2 il2 a2));
-              c_declared := expr_strength_default |}
+              c_declared := expr_strength_between |}
   | _ => None
   end.
 
@@ -165,6 +165,13 @@ Definition lit_text (l : lit) : str :=
 Definition col_name (i : nat) : str := [97 + N.of_nat i].    (* a, b, c, ... *)
 Local Close Scope N_scope.
 
+(* sql_ast::Expr::Value: a negative number may bind like a unary minus (gen_expr.rs, 83e82fa) *)
+Definition lit_is_negative (l : lit) : bool :=
+  match l with LInt z => (z <? 0)%Z | LFloat n _ => (n <? 0)%Z | _ => false end.
+Definition negative_atom_strength : nat :=
+  match negative_number_strength with Some s => s | None => expr_strength_default end.
+Definition lit_strength (l : lit) : nat := if lit_is_negative l then negative_atom_strength else expr_strength_default.
+
 (* ---- translate_expr ---- *)
 Definition node := (nat * sdexpr * nat)%type.    (* top-level parentheses, tree, binding strength as the emitter sees it *)
 
@@ -186,7 +193,7 @@ Fixpoint translate (dialect : str) (fuel : nat) (r : rexpr) : option node :=
   | S f =>
     match r with
     | RCol i => Some (0, DAtom (AText (col_name i)), expr_strength_default)
-    | RLit l => Some (0, DAtom (AText (lit_text l)), expr_strength_default)
+    | RLit l => Some (0, DAtom (AText (lit_text l)), lit_strength l)
     | _ =>
         match select dialect r with
         | None => None
